@@ -376,6 +376,8 @@ class Core(composites.Composite):
         self.childrenByLocator.pop(a1.spatialLocator)
         a1.p.dischargeTime = self.r.p.time
         self.remove(a1)
+        # the occupied locations changed: the circular rings have to be worked out again
+        self.circularRingList = {}
 
         if discharge and self._trackAssems:
             if self.parent.excore.get("sfp") is not None:
@@ -539,6 +541,8 @@ class Core(composites.Composite):
             a.moveTo(spatialLocator)
 
         self.childrenByLocator[spatialLocator] = a
+        # the occupied locations changed: the circular rings have to be worked out again
+        self.circularRingList = {}
         # build a lookup table for history tracking.
         if aName in self.assembliesByName and self.assembliesByName[aName] != a:
             # try to keep assem numbering correct
@@ -869,7 +873,8 @@ class Core(composites.Composite):
             assems.drop(lambda a: a in exclusions)
 
         # get assemblies at locations
-        locSet = self.circularRingList[ring]
+        # not by subscript: the table is a defaultdict and would grow an entry for an empty ring
+        locSet = self.circularRingList.get(ring, set())
         assems.select(lambda a: a.getLocation() in locSet)
 
         if typeSpec:
